@@ -11,10 +11,12 @@
 #include <cfenv>
 #include <clocale>
 #include <iostream>
+#include <limits>
 #include <locale>
 #include <map>
 #include <memory>
 #include <set>
+#include <thread>
 
 #include <sys/personality.h>
 #include <sys/resource.h>
@@ -91,6 +93,17 @@ ops::MssmPoint mssm_point(uint64_t seed)
       if (r.chance(0.5)) p.MA = m;
    }
    // a fraction of unphysical points so that exception and warning paths run
+   // degenerate / non-finite inputs that get past the input checks only with force_output (failures deep inside the
+   // calculation instead of at its door)
+   if (r.chance(0.08)) {
+      const double inf = std::numeric_limits<double>::infinity(), nan = std::numeric_limits<double>::quiet_NaN();
+      p.force_output = r.chance(0.7);
+      switch (r.below(12)) {
+      case 0: p.MW = 0; break; case 1: p.MZ = 0; break; case 2: p.alpha_MZ = inf; break; case 3: p.alpha_MZ = nan; break; case 4: p.alpha_MZ = -0.0078; break;
+      case 5: p.TB = inf; break; case 6: p.Mu = nan; break; case 7: p.M1 = inf; break; case 8: p.ml2[1] = nan; break; case 9: p.scale = 0; break;
+      case 10: p.MA = 0; break; default: p.TB = 1e-300; break;
+      }
+   }
    switch (r.below(12)) {
    case 0: p.ml2[1] = -p.ml2[1]; break;        // tachyonic smuon
    case 1: p.Mu = 0; break;
@@ -365,6 +378,12 @@ OpResult exec_op_inner(Context& c, const std::vector<std::string>& t, std::vecto
             try { cb = sim::bits(cp.m ? ops::eval_mssm(fn, *cp.m) : ops::eval_thdm(fn, *cp.t)); } catch (...) { cexc = exception_class(); }
             cp.reset();
             if (!cexc.empty() || cb != r.bits) modified.push_back("copy-differs:" + t[1]);
+            // "... and does not depend on what was computed before": the same evaluation in a FRESH thread (pristine
+            // thread_local state, errno, floating-point environment) must give the same bits as here, on a thread that
+            // has executed the whole history so far
+            uint64_t tb = 0; std::string texc;
+            { std::thread th([&] { try { tb = sim::bits(md->m ? ops::eval_mssm(fn, *md->m) : ops::eval_thdm(fn, *md->t)); } catch (...) { texc = exception_class(); } }); th.join(); }
+            if (!texc.empty() || tb != r.bits) modified.push_back("history-dependent:fresh_thread:" + t[1]);
          }
       } else if (t[0] == "pr" && t.size() >= 3) {
          Model* md = model_ref(1);
@@ -527,7 +546,7 @@ std::vector<std::string> gen_plan(uint64_t seed, std::string* mode_out)
          case 7: { // change a model the task owns (often a copy of a shared model that other tasks are reading) and recalculate
             int j = -1; for (int tries = 0; tries < 4 && j < 0; ++tries) { const int c = (int)r.below(NSLOTS); if (slot_kind[c] >= 0) j = c; }
             if (j < 0) { const int k = (int)r.below(nshared); slot_kind[sl] = shared_kind[k]; p.push_back(T + "cp " + std::to_string(sl) + " s " + std::to_string(k)); j = sl; }
-            p.push_back(T + "mu " + std::to_string(j) + " " + std::to_string(r.below(24)) + " " + std::to_string(r.next() >> 1));
+            p.push_back(T + "mu " + std::to_string(j) + " " + std::to_string(r.below(90)) + " " + std::to_string(r.next() >> 1));
          } break;
          case 8: p.push_back(T + "ff " + std::to_string(r.next() >> 1)); break;
          default: p.push_back(T + "ev " + hammer_fn + " s " + std::to_string(hammer_k)); break;
